@@ -265,7 +265,6 @@ func runBundle(files []*File, order []int, entry string, datas []data.Map, ij da
 }
 
 func checkC02(c *Ctx) {
-	leaves := c02Leaves()
 	datas := c02Data()
 	lib := libFiles()
 
@@ -367,6 +366,23 @@ func checkC02(c *Ctx) {
 		}
 	}
 
+	enumBodies(c.Thorough(), tryBody)
+	// fixed scenarios: recursion, cross-file names, header params, special characters and literal.
+	extra := [][]*Cmd{
+		{{K: "call", Call: &CallSpec{Name: "deep.rec", Target: "lib.deep.rec", Params: []CallParam{{Key: "n", Value: I(4)}}}}},
+		{{K: "call", Call: &CallSpec{Name: "lib.deep.rec", Target: "lib.deep.rec", Params: []CallParam{{Key: "n", Value: call("length", vr("l"))}}}}},
+		{{K: "raw", Text: "{sp}{nil}{lb}{rb}{\\n}{\\t}{\\r}", Out: " {}\n\t\r"}, {K: "raw", Text: "{literal}{$x} {{ }}{/literal}", Out: "{$x} {{ }}"}, pr(vr("y"))},
+		{{K: "css", Text: "cls"}, {K: "css", E: vr("y"), Text: "suf"}, txt(";")},
+	}
+	for _, b := range extra {
+		tryBody(b, 0)
+		tryBody(b, 3)
+	}
+}
+
+// enumBodies enumerates the entry-template bodies of C02/C07.
+func enumBodies(thorough bool, tryBody func(body []*Cmd, variant int)) {
+	leaves := c02Leaves()
 	// depth-0 bodies: lists of <=3 leaves
 	lists0 := [][]*Cmd{{}}
 	for _, a := range leaves {
@@ -410,7 +426,7 @@ func checkC02(c *Ctx) {
 	}
 	// depth-2: block(block(inner list <=1 of leaves)) with pre/post (thorough: inner lists <=2)
 	inner := lists0[:1+len(leaves)]
-	if c.Thorough() {
+	if thorough {
 		inner = lists0
 	}
 	for _, pre := range pres[:3] {
@@ -426,16 +442,5 @@ func checkC02(c *Ctx) {
 				}
 			}
 		}
-	}
-	// fixed scenarios: recursion, cross-file names, header params, special characters and literal.
-	extra := [][]*Cmd{
-		{{K: "call", Call: &CallSpec{Name: "deep.rec", Target: "lib.deep.rec", Params: []CallParam{{Key: "n", Value: I(4)}}}}},
-		{{K: "call", Call: &CallSpec{Name: "lib.deep.rec", Target: "lib.deep.rec", Params: []CallParam{{Key: "n", Value: call("length", vr("l"))}}}}},
-		{{K: "raw", Text: "{sp}{nil}{lb}{rb}{\\n}{\\t}{\\r}", Out: " {}\n\t\r"}, {K: "raw", Text: "{literal}{$x} {{ }}{/literal}", Out: "{$x} {{ }}"}, pr(vr("y"))},
-		{{K: "css", Text: "cls"}, {K: "css", E: vr("y"), Text: "suf"}, txt(";")},
-	}
-	for _, b := range extra {
-		tryBody(b, 0)
-		tryBody(b, 3)
 	}
 }
